@@ -20,7 +20,7 @@ def run(pid, tier, seed, ROOT, REPO, WORK):
         if not x.startswith(y): bad.append(f'guard does not denote the projection of its one snapshot: observed `{x}`; one-snapshot semantics gives `{y}`')
         if 'alive_while_guarded=0' in x or 'released_after=0' in x: bad.append('snapshot not kept alive by the guard / not released with it: ' + x)
     out['coverage'] = {'evaluations': len(a), 'distinct_nontrivial': len(set(a)), 'traces_validated_against_impl': len(a) - len(bad), 'shapes': shapes,
-                       'rule': 'random observations over 20 access shapes (container, &, Arc, Map depth 1-2, Box/Arc<dyn DynAccess>, dyn over Map over dyn over Map, AccessConvert, Constant, Map (depth 1-2, static and dyn) over Constant and over the container viewed as Access<Arc<T>> with projections into what the inner guard holds inline, guard moved to another thread, keep-alive); every guard is boxed (moved) and the stack below it overwritten between creation and each deref, 0-3 stores between guard creation and each later deref; distinct = distinct observation lines; non-trivial: all (each checks stability and freshness)'}
+                       'rule': 'random observations over 21 access shapes (container, &, Arc, Map depth 1-2, Box/Arc<dyn DynAccess>, dyn over Map over dyn over Map, AccessConvert, Constant, Map (depth 1-2, static and dyn) over Constant and over the container viewed as Access<Arc<T>> with projections into what the inner guard holds inline, guard moved to another thread, keep-alive, keep-alive of a guard that outlives its loading thread whose bookkeeping a newcomer has taken over); every guard is boxed (moved) and the stack below it overwritten between creation and each deref, 0-3 stores between guard creation and each later deref; distinct = distinct observation lines; non-trivial: all (each checks stability and freshness)'}
     out['samples'] = [{'access_observation': x} for x in a[:3]]
     if died: bad.append(died)
     if bad:
